@@ -94,6 +94,13 @@ class EvalMixin:
         """guarded-by discipline of the function under verification: an access to self.<name> in its body (not in
         inlined callees' specs) is an obligation that the guard holds at that moment"""
         c = self.root.contract if hasattr(self, 'root') else None
+        if not self.spec and isinstance(obj, SRef):
+            # world-level guard on a field of a class (whoever accesses it): e.g. the shared memory behind a
+            # synchronized wrapper may only be touched with the wrapper's lock held
+            fg = getattr(self.world, 'field_guards', {}).get('%s.%s' % (obj.shape.cls, name))
+            if fg is not None:
+                from .contracts import prove
+                prove(self, 'guarded.%s.%s' % (obj.shape.cls, name), fg(self, obj))
         if self.spec or c is None or not getattr(c, 'guarded', None) or name not in c.guarded:
             return
         me = self.root.scopes[0].get('self')
@@ -720,6 +727,10 @@ class EvalMixin:
             v = obj.shape.select(obj, key)
             self.path._assume_wf(v)
             return v
+        if isinstance(obj, SRef) and not self.spec:
+            decl = self.world.classes.get(obj.shape.cls)
+            if decl is not None and '__getitem__' in decl.methods:
+                return decl.methods['__getitem__'](self, [obj, idx], {})      # declared (assumed) item access
         raise Unsupported('subscript of %r' % (obj,))
 
     def index_in(self, idx, ln):
